@@ -137,7 +137,7 @@ func init() {
 		lv := levels(m["levels"])
 		gc := atoi(m["gc"], 1) != 0
 		autow := atoi(m["auto"], 1) != 0
-		maxw := atoi(m["maxw"], 0) // max writes per transaction (0: unlimited)
+		maxw := atoi(m["maxw"], 0)              // max writes per transaction (0: unlimited)
 		deflevel := atoi(m["deflevel"], 0) != 0 // also Begin() without a level
 		keys := keyNames[:nk]
 		f := &seq.Family{Opt: seq.Options{Slots: slots, ObsKeys: append(append([]string{}, keys...), neverKey), Spec: spec()}}
@@ -151,7 +151,7 @@ func init() {
 					out = append(out, seq.Op{Kind: seq.Set, Actor: model.Auto, Key: k}, seq.Op{Kind: seq.Delete, Actor: model.Auto, Key: k})
 				}
 			}
-			if s := md.FreeSlot(); s >= 0 && left > 1 {
+			if s := md.FreeSlot(); s >= 0 {
 				for _, l := range lv {
 					out = append(out, seq.Op{Kind: seq.Begin, Actor: s, Level: l})
 				}
@@ -204,7 +204,7 @@ func init() {
 			var out []seq.Op
 			k := keys[0]
 			out = append(out, seq.Op{Kind: seq.Set, Actor: model.Auto, Key: k})
-			if s := md.FreeSlot(); s >= 0 && left > 1 {
+			if s := md.FreeSlot(); s >= 0 {
 				for _, l := range lv {
 					out = append(out, seq.Op{Kind: seq.Begin, Actor: s, Level: l})
 				}
